@@ -134,9 +134,13 @@ func (t *Directive) hasDirLoop(hits map[string]bool) []string {
 			if hits[name] {
 				return []string{t.Name() + "." + a.Name(), name}
 			}
-			hits[name] = true
 			if d2, _ := du.Directive.(*Directive); d2 != nil {
-				if path := d2.hasDirLoop(hits); 0 < len(path) {
+				// hits are the directives on the way here, a directive
+				// reached twice by different ways is not a loop.
+				hits[name] = true
+				path := d2.hasDirLoop(hits)
+				delete(hits, name)
+				if 0 < len(path) {
 					return append([]string{t.Name() + "." + a.Name()}, path...)
 				}
 			}
